@@ -341,6 +341,38 @@ def run(chk):
             nontriv.add(b4b.lines[i])
     chk.count("tiff-bitpath-reference", 4 * len(b4b.lines), nontriv, samples=[{"case": b4b.lines[3][:200], "impl": impl4b[3][:100]}])
 
+    # ---------- part 4c: bytes after the EOD marker (a stream whose /Length also counts a trailing EOL, or junk) ----------
+    # ISO 32000-1 7.4.2-7.4.5: '>' / '~>' / code 257 / length byte 128 end the data. Theorems a85_stops_at_eod (C15ProofsR.v);
+    # for RunLength the statement is refuted on the faithful model (rld_stops_at_eod_refuted) = finding C15-F1-runlength-eod.
+    ae_jobs = []
+    tails = [b"\r\n", b"\n", b"\r", b" ", b"\x00", b"\x00A", b"\x80", b"\x01AB", b"\xfeZ", b"~>", b">", b"zzzz", b"\x80\x00A"]
+    for n in (0, 1, 2, 3, 4, 5, 7, 8, 64, 127, 128, 129, 300):
+        d = rand_data(rng, n)
+        for f, ps, line in (("ahx", "-", "ref ahx_enc - %s u/-/-" % hexs(d)), ("a85", "-", "ref a85_enc - %s" % hexs(d)),
+                            ("rld", "-", "ref rl_enc - %s" % hexs(d)), ("lzw", "0", "ref lzw_enc 0 %s" % hexs(d)), ("lzw", "1", "ref lzw_enc 1 %s" % hexs(d))):
+            ae_jobs.append((line, f, ps, d))
+    ae_enc = common.run_lines(runner, [j[0] for j in ae_jobs], shards=4)
+    b4c = Batch()
+    for (line, f, ps, d), enc in zip(ae_jobs, ae_enc):
+        if enc.startswith("?"):
+            raise common.InfraError("reference encoder failed: %s -> %s" % (line[:80], enc))
+        e = bytes.fromhex(enc) if enc != "-" else b""
+        for t in rng.sample(tails, 4) + [bytes(rng.randrange(256) for _ in range(rng.randint(1, 6)))]:
+            b4c.add("filt %s %s %s" % (f, ps, cstr(rng.choice(chunkings(rng, e + t, k=1)))), f=f, d=d, tail=t)
+    impl4c = common.run_lines(drv, b4c.lines, shards=4)
+    model4c = common.run_lines(runner, b4c.lines, shards=4)
+    nontriv = set()
+    for i, m in enumerate(b4c.meta):
+        if impl4c[i] != hexs(m["d"]) + " 0":
+            chk.violation({"kind": "property-fails-on-implementation", "part": "data-after-eod", "filter": m["f"], "case": b4c.lines[i][:1500],
+                           "original": m["d"].hex()[:1500], "tail_after_eod": m["tail"].hex(), "implementation": impl4c[i][:1500], "model": model4c[i][:1500],
+                           "why": "the decoder does not stop at the EOD marker: bytes after it change the decoded data"},
+                          signature="C15:%s-data-after-eod" % m["f"])
+        if impl4c[i] != model4c[i]:
+            tie_total.append((b4c.lines[i][:400], impl4c[i][:400], model4c[i][:400]))
+        nontriv.add((m["f"], m["d"], m["tail"]))
+    chk.count("data-after-eod", len(b4c.lines), nontriv, samples=[{"case": b4c.lines[2][:200], "impl": impl4c[2][:100]}])
+
     # ---------- part 5: malformed streams into every decoder (outcome class + bytes) ----------
     b5 = Batch()
     nmal = 3000 if quick else 60000
